@@ -117,7 +117,12 @@ def generate(seed, tier="quick"):
             steps.append({"k": "remove_ref", "seed": srng.randint(0, 10**9)})
         elif r < 0.90:
             steps.append({"k": "delete_storage_file", "seed": srng.randint(0, 10**9)})
-        elif r < 0.96:
+        elif r < 0.93:
+            # the user edits only the import section: a statement now stands between the other imports and `from inline_snapshot import external`;
+            # the session that follows approves trim
+            steps.append({"k": "move_import"})
+            steps.append({"k": "session", "flags": srng.choice(["trim", "create,fix,trim", "fix,trim", "trim,update"])})
+        elif r < 0.97:
             steps.append({"k": "config", "hash_length": srng.choice([1, 2, 8, 12, 64])})
         else:
             steps.append({"k": "add_test", "seed": srng.randint(0, 10**9)})
@@ -254,6 +259,15 @@ def execute(case, ctx):
                 names = sorted(n for n in pre_list if "-new" not in n)
                 if names:
                     del files[srel + "/" + rng.choice(names)]
+                continue
+            if k == "move_import":
+                for kk in [kk for kk in files if kk.startswith("test_")]:
+                    text = files[kk].decode("utf-8")
+                    line = "from inline_snapshot import external\n"
+                    if line in text and "from simlib import *\n" in text:
+                        text = text.replace(line, "", 1).replace("from simlib import *\n", "from simlib import *\nIMPORT_GUARD = len('a statement between the imports')\n" + line, 1)
+                        files[kk] = text.encode("utf-8")
+                        ctx.count("probe_external_import_moved_below_a_statement")
                 continue
             if k == "config":
                 cfg["hash_length"] = step["hash_length"]
